@@ -68,9 +68,11 @@ enum F {
     Or(Box<F>, Box<F>),
 }
 
-// one attribute has `*` at the start of its dimension and at the end of its name (legal: names are
-// /[^&|: ]+/), one has a multi-byte dimension and a name with an inner blank
-const ATTRS: [(&str, &str); 4] = [("D1", "a"), ("D1", "b"), ("*D2", "a*"), ("Dé", "ü x")];
+// two attributes differ only by a blank inside the name; one has `*` at the start of its dimension
+// and at the end of its name (legal: names are /[^&|: ]+/); one has multi-byte characters, an inner
+// blank, and characters whose code points equal a metacharacter modulo 256 (U+017C ~ '|',
+// U+0126 ~ '&', U+0128 ~ '(', U+0129 ~ ')', U+013A ~ ':', U+0120 ~ ' ', U+012A ~ '*')
+const ATTRS: [(&str, &str); 4] = [("D1", "ab"), ("D1", "a b"), ("*D2", "a*"), ("DéżĦ", "ü ĨĩĺĠĪ")];
 
 fn shapes(n: usize) -> Vec<F> {
     // all binary trees with n leaves; leaves numbered later
@@ -345,6 +347,25 @@ pub fn check(prop: &str, tier: &str) -> i32 {
     let mut run = Run::new(prop, tier, "exploration");
     silence_panics();
     let len: usize = std::env::var("VERIF_PARSE_LEN").ok().and_then(|s| s.parse().ok()).unwrap_or(if thorough { 9 } else { 7 });
+    // (o) faithfulness from the initial state of the process: every formula with <= 2 leaves,
+    // sequentially and before anything else was parsed (a parser that remembers earlier inputs
+    // is in its initial state only here); repeated at the very end, after ~10^7 other inputs
+    let small_formulas = |run: &mut Run, when: &str| -> u64 {
+        let mut out = Faith::default();
+        for k in 1..=2usize {
+            for shape in shapes(k) {
+                for code in 0..4usize.pow(k as u32) {
+                    let leaves: Vec<usize> = (0..k).map(|i| (code / 4usize.pow(i as u32)) % 4).collect();
+                    check_formula(&assign_leaves(&shape, &leaves, &mut 0), &mut out);
+                }
+            }
+        }
+        for (c, m) in out.failures.iter().take(4) {
+            run.report(None, c, &format!("{when}: {m}"), json!({"engine": "parsex", "message": m}));
+        }
+        out.printed
+    };
+    let early_printed = small_formulas(&mut run, "first inputs of the process");
     // (i) totality: split on the first two symbols for parallelism
     let mut prefixes: Vec<String> = vec![String::new()];
     for a in ALPHABET {
@@ -496,11 +517,13 @@ pub fn check(prop: &str, tier: &str) -> i32 {
             }
         }
     }
+    let late_printed = small_formulas(&mut run, "after all other inputs");
+    run.set("small_formulas_first_and_last", json!(early_printed + late_printed));
     run.set("evaluations", json!(strings + wide_strings + long_strings + printed));
     run.set("long_strings_enumerated", json!(long_strings));
     run.set("large_regular_policies", json!(large_cases));
     run.set("distinct_nontrivial", json!(accepted + printed));
-    run.set("rule", json!(format!("(i) every string of length <= {len} over the 10 symbols ( ) & | : space * a b é (é is 2 bytes), plus every string of length <= {wide_len} over the same symbols extended with a 3-byte and a 4-byte character, is parsed under catch_unwind and expanded to DNF when accepted; (i') every string of length <= 3 over the 10 symbols embedded in 5 templates with fillers of 0..36 (thorough 70) repetitions of a 1-, 2-, 3- and 4-byte character (a multi-byte character at every byte offset of long valid and invalid expressions); (ii) every boolean formula with <= {n} leaves over 4 attributes (one with a multi-byte dimension and a name containing a blank), every tree shape and operator assignment, printed in 5 styles (minimal, spaced, parenthesised everywhere, doubly parenthesised, padded) is parsed and compared with a reference reader (grouping first, AND before OR) on all 16 truth assignments, for the tree and for its DNF, and on attribute names. distinct_nontrivial = accepted strings + printed formulas")));
+    run.set("rule", json!(format!("(i) every string of length <= {len} over the 10 symbols ( ) & | : space * a b é (é is 2 bytes), plus every string of length <= {wide_len} over the same symbols extended with a 3-byte and a 4-byte character, is parsed under catch_unwind and expanded to DNF when accepted; (i') every string of length <= 3 over the 10 symbols embedded in 5 templates with fillers of 0..36 (thorough 70) repetitions of a 1-, 2-, 3- and 4-byte character (a multi-byte character at every byte offset of long valid and invalid expressions); (o) the formulas with <= 2 leaves are checked as in (ii) as the very first inputs of the process and again as the last ones; (ii) every boolean formula with <= {n} leaves over 4 attributes (one with a multi-byte dimension and a name containing a blank), every tree shape and operator assignment, printed in 5 styles (minimal, spaced, parenthesised everywhere, doubly parenthesised, padded) is parsed and compared with a reference reader (grouping first, AND before OR) on all 16 truth assignments, for the tree and for its DNF, and on attribute names. distinct_nontrivial = accepted strings + printed formulas")));
     run.set("strings_enumerated", json!(strings));
     run.set("wide_strings_enumerated", json!(wide_strings));
     run.set("strings_accepted", json!(accepted));
